@@ -131,6 +131,15 @@ Theorem C01_gate_calls_are_replaced_by_instantiated_bodies fuel p q evs :
 Proof. exact (programs_with_gate_definitions_unroll_to_their_expansion fuel p q evs). Qed.
 Print Assumptions C01_gate_calls_are_replaced_by_instantiated_bodies.
 
+(* ... on SOURCE programs, where `qubit q;` and `bit c;` stand for registers of size 1 (`gjudge p = gexpand env0 [] (map sized p)`) *)
+Theorem C01_source_programs_unroll_to_their_expansion fuel p q evs :
+  gjudge p = Some (q, evs) -> (ldepth p + 1 < fuel)%nat -> (gate_nesting < fuel)%nat ->
+  exists o, run_visit false false [] fuel p = Ok o /\ o_stmts o = q /\ wf_flat env0 q = true /\
+            num_qubits (o_state o) = total_qubits q /\ num_clbits (o_state o) = total_clbits q /\
+            forall r, dof (o_state o) r = depth_after rsrc_eqb evs r.
+Proof. exact (source_programs_unroll_to_their_expansion fuel p q evs). Qed.
+Print Assumptions C01_source_programs_unroll_to_their_expansion.
+
 (* one call, in any state that holds the definitions G and is expanding the gates of stk (the called gate not among them);
    `gcall n` follows calls of defined gates inside bodies to nesting depth n, instantiating each body in turn *)
 Theorem C01_one_gate_call check_only env G n f stk s name args vs bs out evs :
